@@ -43,6 +43,37 @@ pub fn run_line(t: &str, b: usize) -> Outcome {
     }
 }
 
+/// column of a char-boundary offset: the property's reading (CR LF counts once; at the end of
+/// the text one plus the characters of the last line)
+pub fn run_col(t: &str, b: usize) -> Outcome {
+    let nlc = NewlineCache::from_str(t).unwrap();
+    let exp = if b > t.len() {
+        None
+    } else {
+        let ls = line_start(t, b);
+        let line = 1 + t.as_bytes()[..b].iter().filter(|&&c| c == b'\n').count();
+        let col = if b == t.len() {
+            1 + t[ls..].chars().count()
+        } else {
+            let mut n = 0;
+            let mut prev = None;
+            for (off, c) in t[ls..].char_indices() {
+                if !(c == '\n' && prev == Some('\r')) { n += 1; }
+                prev = Some(c);
+                if ls + off == b { break; }
+            }
+            n
+        };
+        Some((line, col))
+    };
+    let r = catch_unwind(AssertUnwindSafe(|| nlc.byte_to_line_num_and_col_num(t, b)));
+    let expected = format!("{:?}", exp);
+    match r {
+        Err(_) => Outcome { fails: true, observed: "panic".into(), expected },
+        Ok(o) => Outcome { fails: o != exp, observed: format!("{:?}", o), expected },
+    }
+}
+
 fn texts(maxlen: usize) -> Vec<String> {
     let alpha = ['a', '\n', '\r', 'é'];
     let mut out = vec![String::new()];
@@ -65,8 +96,17 @@ fn texts(maxlen: usize) -> Vec<String> {
 pub fn search(tag: &str, tier: &str) -> Option<Value> {
     let maxlen = if tier == "thorough" { 7 } else { 6 };
     let span_q = tag.contains("span") || tag.contains("st_line") || tag.contains("bsearch") || tag.contains("newlines[");
+    let col_q = tag.contains(".col.") || tag.contains("slice_start");
     for t in texts(maxlen) {
-        if span_q {
+        if col_q {
+            for b in 0..=t.len() + 1 {
+                if b <= t.len() && !t.is_char_boundary(b) { continue; }
+                let o = run_col(&t, b);
+                if o.fails {
+                    return Some(witness("c19_col", json!({"text": t, "byte": b}), &o));
+                }
+            }
+        } else if span_q {
             for s in 0..=t.len() {
                 for e in s..=t.len() {
                     if !t.is_char_boundary(s) || !t.is_char_boundary(e) { continue; }
